@@ -51,7 +51,9 @@ def case(g, tier, ci):
             for ch in order:
                 a, o = amps[ch], offs[ch]
                 k = r.random()
-                if k < 0.5:
+                if k < 0.12:
+                    lv = 0.0        # an idle 0 V channel: mapped to -offset/(amplitude/2), refused when 0 V is outside the range
+                elif k < 0.5:
                     lv = o + r.choice([-1, 1]) * a / 2 * r.choice([0.5, 0.25, 0.0])
                 elif k < 0.8:
                     lv = o + r.choice([-1, 1]) * a / 2
